@@ -106,6 +106,8 @@ def explore(space, tier, seed, chunk_size=None, budget_s=None):
     pid = space.ID
     chunk_size = chunk_size or getattr(space, "CHUNK", 40)
     budget_s = budget_s or getattr(space, "BUDGET", {}).get(tier, 3000 if tier == "thorough" else 600)
+    if os.environ.get("VERIF_BUDGET"):
+        budget_s = float(os.environ["VERIF_BUDGET"])
     case_iter = space.cases(tier, seed)
     all_chunks = list(_chunks(case_iter, chunk_size))
     total_cases = sum(len(c) for c in all_chunks)
@@ -184,10 +186,12 @@ def explore(space, tier, seed, chunk_size=None, budget_s=None):
             pool2.join()
         for agg in res:
             for idx, fp in agg["per_case"]:
+                if idx not in fingerprints:
+                    continue  # the main run was capped before this case was executed
                 memo_conf["cases"] += 1
-                if idx in fingerprints and fingerprints[idx] == fp:
+                if fingerprints[idx] == fp:
                     memo_conf["identical"] += 1
-                elif idx in fingerprints:
+                else:
                     nondet.append(idx)
 
     # --- violations: order simplest-first, one per signature, re-execute in a fresh process
